@@ -245,6 +245,15 @@ fn cmd_check(args: &[String]) {
                 }));
             }
         }
+        if ref_wall_ms > HEAVY_REFERENCE_MS {
+            // A source whose plain build takes this long (the generator can produce component
+            // graphs on which fontc's walks are exponential, a listed finding of C15) is judged as
+            // a reference run and left at that: its variations would take hours, and their bounds,
+            // scaled from this run, would mean nothing.
+            emit(json!({"t": "skipped-heavy", "group": g.index, "source": g.reference.source, "gen_seed": g.reference.gen_seed, "wall_ms": ref_wall_ms}));
+            skipped += 1;
+            continue;
+        }
         let reference = ref_res.rec;
         // bounds for the variations scale with what the reference run needed
         let ref_wall_s = ref_wall_ms as f64 / 1000.0;
@@ -328,6 +337,9 @@ fn real_now() -> f64 {
 
 /// Re-run a recorded violation: reference plan, then the failing plan, then the same oracles.
 /// Exit 0 and a VIOLATION line if it reproduces, 3 if it does not.
+/// a reference run slower than this gets no variations (see the check loop)
+const HEAVY_REFERENCE_MS: u64 = 20_000;
+
 /// the step bound a run gets when it exhausted the ordinary one (see the check loop)
 const STEPS_SECOND_CHANCE: usize = 500_000_000;
 
